@@ -6,16 +6,16 @@ import json, subprocess
 CLAIMED = {
  # id: (technique, level text, level note, design ref)
  "C01": ("reference-model monitor over generated + exhaustive-grid executions",
-         "Every Search / Compile+Search execution of an exhaustive selector-chain grid (all chains of <=3/4 selectors x 7 roots x 12 documents), of index and slice literals at the 8/16/32/64-bit boundaries over arrays of 1..300 elements in every position an index can take, and of seeded document-directed random core-language expressions is compared with an independent reference evaluator; held = no disagreement on any decided case explored.",
+         "Every Search / Compile+Search execution of an exhaustive selector-chain grid (all chains of <=3/4 selectors x 7 roots x 12 documents), of index and slice literals at the 8/16/32/64-bit boundaries over arrays of 1..300 elements in every position an index can take, of every comparison operator between all pairs of 44 numbers at the 2^31/2^32/2^53/2^63/2^64/10^19 boundaries, and of seeded document-directed random core-language expressions is compared with an independent reference evaluator; held = no disagreement on any decided case explored.",
          "Trusts the reference model where it decides (calibrated on the whole compliance corpus, abstains where the spec is open); covers only the executions produced.", "§6 C01"),
  "C02": ("reference-model monitor over an exhaustive argument-type matrix, a boundary lattice and generated calls",
-         "Every builtin x every arity 0..max+1 x every argument vector over a 23-value pool (exhaustive to arity 3, arity 4 exhaustive in thorough), an exhaustive integer-parameter boundary lattice, seeded document-directed calls (incl. caller-scope expression references and expression-reference bodies that call builtins again), every per-element construct paired with every construct evaluated inside its body (19 x 32 re-entrant pairs), and wide forms (variadic calls, multi-selects, lets, chains and nestings with 1..257 members) are executed through Search and compared with independent reference builtins (value, or error category).",
+         "Every builtin x every arity 0..max+1 x every argument vector over a 23-value pool (exhaustive to arity 3, arity 4 exhaustive in thorough), an exhaustive integer-parameter boundary lattice, seeded document-directed calls (incl. caller-scope expression references and expression-reference bodies that call builtins again), every per-element construct paired with every construct evaluated inside its body (19 x 32 re-entrant pairs), wide forms (variadic calls, multi-selects, lets, chains and nestings with 1..257 members), one wrong-typed element at the first/middle/last positions of arrays and argument lists of 1..65 members for every array/variadic builtin, and every numeric builtin over 44 boundary numbers (literal, string and document routes) are executed through Search and compared with independent reference builtins (value, or error category).",
          "Trusts the reference builtins where they decide (abstentions listed in ref/DETERMINACY.md); huge pad widths are not executed (known finding on C03).", "§6 C02"),
  "C03": ("crash monitor: recovered-panic oracle + child-death attribution via a crash-surviving intent slot; thorough tier repeats the data workloads under the race detector (checkptr)",
-         "Hostile expression bytes (exhaustive truncations of the corpus, random bytes/tokens, token mutants, 1 MiB flat inputs, 20 recursive constructs nested to 1e5/3e5 and 4e6) and hostile Go data (every numeric kind incl. NaN/Inf, odd json.Number texts, decimal specials, typed nils, foreign values, invalid UTF-8 in every argument position of every builtin and operator) are driven through Search, Compile and Expression.Search in child processes; every returned error is formatted; panics and process deaths are violations.",
+         "Hostile expression bytes (exhaustive truncations of the corpus, random bytes/tokens, token mutants, 1 MiB flat inputs, 20 recursive constructs nested to 1e5/3e5 and 4e6) and hostile Go data (every numeric kind incl. NaN/Inf, odd json.Number texts, decimal specials, typed nils, foreign values, invalid UTF-8 in every argument position of every builtin and operator; an exhaustive start/stop/step lattice over the 64-bit limits on single-byte strings, multi-byte strings and arrays) are driven through Search, Compile and Expression.Search in child processes; every returned error is formatted; panics and process deaths are violations.",
          "A death is attributed to the last intent record; address space capped at 4 GiB per child; wall-clock watchdog firings are 'not judged'. Known finding: pad widths beyond memory (known_findings.json).", "§6 C03"),
  "C04": ("reference-recogniser monitor over exhaustive whitespace-gap and single-token-edit neighbourhoods",
-         "Compile's verdict on every text is compared with two independent recognisers (STRICT must compile / LENIENT-rejected must fail with a syntax error, or with a static function fault when a call precedes the error); the texts are every token gap of a base set filled with 5 whitespace strings, the complete single-token-edit neighbourhood of that base set (45 token kinds), hand-written member/non-member lists, generated members in hostile spellings and generated/corrupted JSON literal texts. A non-member that compiles is reported with what it evaluated to.",
+         "Compile's verdict on every text is compared with two independent recognisers (STRICT must compile / LENIENT-rejected must fail with a syntax error, or with a static function fault when a call precedes the error); the texts are every token gap of a base set filled with 5 whitespace strings, the complete single-token-edit neighbourhood of that base set (45 token kinds), hand-written member/non-member lists, every text of <= 5/6 characters over the JSON-number alphabet as a JSON literal (alone, in an array, as a member, in a filter), generated members in hostile spellings and generated/corrupted JSON literal texts. A non-member that compiles is reported with what it evaluated to.",
          "Texts between STRICT and LENIENT (whitespace inside [*]/[]/[?, let/in as identifiers, >64-bit integers, lone surrogates, raw control characters in quoted identifiers, multi-select directly after a projection) are not judged.", "§6 C04"),
  "C05": ("reference-model monitor with exact rational arithmetic (big.Rat) and ulp bounds",
          "Every arithmetic execution (60x60 boundary pool x 12 operators exhaustive, seeded operands up to 34/40 digits across the decimal128 exponent range, cancelling pairs, sum/avg/abs/ceil/floor/to_number/comparison, and prefix ladders that feed one long number text prefix by prefix within one process) is compared with exact rational arithmetic: equal when the exact result has <= 34 significant digits, within one unit of the 34th digit otherwise, not-a-number error for division by zero/overflow, never an infinity or NaN value; operands travel as json.Number, literal and decimal128.",
@@ -27,22 +27,22 @@ CLAIMED = {
          "Position/length/width/order results of every string operation are compared with a code-point model for every position in [-len-2, len+2] and extremes; every string of every result is checked for UTF-8 validity; renaming a-z to 2-/3-/4-byte letters in expression and data must rename the result identically (library against itself).",
          "lower/upper outside ASCII, ordering operators on strings, negative find_* positions where readings differ and split('' , count >= length) are not judged.", "§6 C11"),
  "C12": ("reference-model + direct-oracle monitor over an exhaustive slice lattice",
-         "x[start:stop:step] for n in 0..7 over a 25x25x17 boundary lattice (incl. +-2^62, 2^63-1, -2^63) on arrays and on strings of mixed-width code points (exhaustive), seeded n <= 300 with random 64-bit parameters and the projection rule, slices nested inside other slices' projections / multi-selects / filters / expression references over 2-D and 3-D arrays, compared with the specification's slice algorithm evaluated on big integers by two independent oracles.",
+         "x[start:stop:step] for n in 0..7 over a 25x25x17 boundary lattice (incl. +-2^62, 2^63-1, -2^63) on arrays and on strings of mixed-width code points (exhaustive), seeded n <= 300 with random 64-bit parameters and the projection rule, slices nested inside other slices' projections / multi-selects / filters / expression references over 2-D and 3-D arrays, a 70000-element array and 70000-character strings with bounds around 2^15/2^16/2^17 in every slice position, compared with the specification's slice algorithm evaluated on big integers by two independent oracles.",
          "Integer literals beyond 64 bits are a grammar gap.", "§6 C12"),
  "C10": ("metamorphic monitor (implied parentheses) + reference-model monitor over all operator pairs/triples with distinguishing documents",
-         "For every ordered pair and (thorough) triple of the 18 binary operator spellings, with and without unary prefixes, documents are searched on which the specified grouping differs from every other grouping; on those the library's result for the bare chain must equal its result for the chain with the implied parentheses written out and the model's value, and every explicitly parenthesised alternative must match the model.",
+         "For every ordered pair and (thorough) triple of the 18 binary operator spellings, with and without unary prefixes, documents are searched on which the specified grouping differs from every other grouping; on those the library's result for the bare chain must equal its result for the chain with the implied parentheses written out and the model's value, and every explicitly parenthesised alternative must match the model; a literals stream runs chains over fields and literal numbers at the machine-width boundaries against the model, against the chain with implied parentheses and against the same chain with the literals moved into the document.",
          "Chains for which no distinguishing document exists (e.g. + with -) cannot be decided by execution and are only counted; arithmetic on non-numbers and // % with mixed signs are not judged.", "§6 C10"),
  "C13": ("direct-oracle monitor using unique element ids (permutation, order, stability, extremes, input snapshot)",
          "Arrays of records carrying their original index are sorted/minimised by the library; the monitor reads permutation, non-decreasing order by exact numeric value / code point, stability of equal keys, extremality and membership straight off the ids, for lengths up to 5000 with heavy duplication, numeric respellings and cross-plane strings, structured key orders, and key expressions that themselves sort or select (re-entering the sort routines); invalid arrays with the offending element at every position must raise invalid-type; the input is compared with a snapshot.",
          "Key order is computed with big.Rat / code points by the harness.", "§6 C13"),
  "C17": ("metamorphic monitor: structural identities, library against itself",
-         "Every instantiation of the identity schemata over 15 bases x 60 selector tails (incl. index literals around the 8-bit boundaries) x 11 filters x 16 documents (two with 300-element arrays), plus seeded random ones, is evaluated on both sides by the library and the outcomes compared (values canonically, errors by category).",
+         "Every instantiation of the identity schemata over 15 bases x 60 selector tails (incl. index literals around the 8-bit boundaries) x 11 filters x 16 documents (two with 300-element arrays), plus seeded random ones, plus slot rewrites (1-3 expression slots of generated expressions and of ~100 optimiser-targeted idioms replaced by (e | @), (@ | e), (let $zz = e in $zz), which keep meaning and evaluation order but defeat peephole rewrites and fused fast paths), is evaluated on both sides by the library and the outcomes compared (values canonically, errors by category).",
          "The reference model is only used to drop instances whose meaning is not pinned (order-dependent enumerations, null elements meeting multi-selects/functions); dropped instances are counted.", "§6 C17"),
  "C20": ("reference-model + relational-law monitor over all pairs/triples of a value pool",
          "All ordered pairs of a 64-value pool through ==, !=, contains, filter equality and container wrappers (literal and document routes) against deep type-strict model equality with reflexivity, symmetry, negation; all triples for transitivity (thorough); every value pair through !, &&, ||, filter predicates against the single false-like set, && and || returning an operand unchanged; random nested values with controlled perturbations; whole comparison matrices computed inside one evaluation with operands rebound per element (every comparison node evaluated many times with different values and types).",
          "Numbers compared exactly as rationals; values beyond 34 digits are not in the pool.", "§6 C20"),
  "C14": ("metamorphic monitor: outcome invariance under re-typing of number leaves, library against itself",
-         "For documents of dyadic rationals (exact in every Go numeric kind) and 112 templates (incl. sorts and comparisons re-entered per element) plus random expressions, the outcome with all leaves as canonical json.Number is compared with the outcomes under 6 random assignments of Go kinds and json.Number spellings per case; a boundary stream does the same for large integral values (2^31..2^64, 2^100) in every kind that holds them exactly.",
+         "For documents of dyadic rationals (exact in every Go numeric kind) and 112 templates (incl. sorts and comparisons re-entered per element) plus random expressions, the outcome with all leaves as canonical json.Number is compared with the outcomes under 6 random assignments of Go kinds and json.Number spellings per case; a boundary stream does the same for large integral values (2^31..2^64, 2^100) in every kind that holds them exactly, alone and together with their neighbours v-1 and v+1.",
          "The precondition (every intermediate value exactly representable in each kind) is enforced by construction: dyadic leaves, no general division.", "§6 C14"),
  "C16": ("direct-oracle monitor over exhaustive short strings through every literal syntax",
          "Every string of length <= 3/4 over a 24-symbol hostile alphabet, a boundary set of code points and seeded long strings are written as raw strings, JSON literals (4 encodings) and quoted identifiers (as field and as multi-select key) and must decode to themselves, each preceded in the same process by malformed neighbours (bad escape after a valid prefix, unterminated literal); ladders of 20-70 keys/strings that are prefixes of one another evaluated in sequence and inside one expression; generated JSON values in random layouts between backticks must evaluate to themselves with numbers at full precision.",
